@@ -15,6 +15,21 @@ CHECKS = {
             "expected encoding of each; the implementation is compared on every one of them (exhaustive to length 5/6) and "
             "TLC validates recorded runs on random 7..20 digit strings.",
             "Trusted: TLC, CommunityModules Json, the 20-line concretisation (digits <-> str, nibbles <-> hex).", "4 C18"),
+    "C01": ("TLA+ operators EncAvp/EncMsg (spec/Wire.tla) with model-level theorems (length multiple of 4, Message Length = "
+            "size, AVP Length excludes padding); TLC-enumerated content built through the public API four ways and compared "
+            "with TLC's bytes; recorded dump() of random content over all dictionary and typed command classes validated by "
+            "TLC (EncMsg(content) = bytes)",
+            "TLC is the reference encoder: ~3,500 structurally enumerated messages (every type, length residue, vendor, "
+            "nesting depth 3/4, repeated names) and random content over all 207 dictionary classes and 50 typed commands.",
+            "Trusted: TLC, Json module, ref/avp_dictionary.json (code, vendor, default flags), the concretisation in "
+            "adapters/wirex.py. Known finding F-C09-asa-raa-unset-appid is reported, not suppressed beyond its call site.", "4 C01"),
+    "C09": ("TLA+ operator Build over the typed command table (spec/Dict.tla); TLC enumerates argument subsets per class "
+            "and checks table invariants; real constructors driven with in-domain values and compared; recorded random "
+            "constructions validated by TLC",
+            "Every typed command class x {no optional, each single optional, pairs, all, each mandatory omitted} x 0..2 extra "
+            "AVPs, compared on header, AVP class order, carried values and serialise/decode round trip.",
+            "Trusted: TLC, ref/command_table.json (hand-verified command codes / Application-IDs; parameter kinds frozen "
+            "from the pinned tree), the type-driven value generator.", "4 C09"),
     "C17": ("TLA+ operator Family (long division of the 4-byte word, spec/Types.tla) cross-checked on the model against n div 1000 "
             "for all n in 0..65535; TLC-generated vectors replayed on the integer and answer-object predicates; recorded "
             "predicate results on random 32-bit words validated by TLC",
